@@ -372,7 +372,7 @@ def finish(prop, tier, seed, total, meta, t0, legs):
 class Out(object):
     """Verdict of one evaluated case."""
 
-    __slots__ = ("viols", "cls", "nontrivial")
+    __slots__ = ("viols", "cls", "nontrivial", "__dict__")
 
     def __init__(self, cls=None, nontrivial=True):
         self.viols = []
